@@ -307,7 +307,14 @@ def lib_np_array(ev, a, k, n, mod):
     if isinstance(v, SeqV) and isinstance(v.elem, Tup):
         return ColsV(v.elem.items)
     if isinstance(v, Tup) and len(v.items) == 1 and isinstance(v.items[0], Tup) and getattr(v, "elementwise", False):
-        return ElemRows(v.items[0])
+        inner = v.items[0]
+        if inner.items and all(isinstance(r, Tup) for r in inner.items):
+            # [[[x_jk ...] ...] for element in sequence]: a table with the sequence as its leading (symbolic) axis
+            from .sym import _as_arr
+            arr = _as_arr(ev, inner, n, mod)
+            arr.batch = 1
+            return arr
+        return ElemRows(inner)
     if isinstance(v, Tup) and len(v.items) == 1 and getattr(v, "elementwise", False):
         return v.items[0]
     return v
